@@ -32,6 +32,9 @@ type Ver struct {
 	// JunkVal: an incoming *deleted* entry that nevertheless carries a value (a peer violating the
 	// documented MUST); LS must not write it through.
 	JunkVal model.Bytes `json:"junk_val,omitempty"`
+	// FV: format version of the snapshot this incoming version arrives in (0 = the case's default);
+	// versions of one key may arrive in snapshots of different format versions
+	FV uint32 `json:"fv,omitempty"`
 	Ext    int  `json:"ext,omitempty"`    // extension blocks (stored versions only)
 }
 
@@ -95,11 +98,19 @@ type mergeEnv struct {
 
 const c02Txn = 77
 
+func (e mergeEnv) forVer(v Ver) mergeEnv {
+	if v.FV != 0 {
+		e.FV = v.FV
+	}
+	return e
+}
+
 // mergeOnce runs the merge routine of the code under test for one incoming
 // version against stored bytes (nil = absent). It returns a private copy of the
 // result (nil = key absent afterwards) and whether the returned slice was the
 // stored slice itself.
 func mergeOnce(stored []byte, in Ver, e mergeEnv) (out []byte, same bool, err error) {
+	e = e.forVer(in)
 	d := snapshot.NewDBISize(64 + len(in.Val))
 	d.SetName("x")
 	d.Append(in.incoming([]byte("k"), e.FV))
@@ -124,6 +135,7 @@ func mergeOnce(stored []byte, in Ver, e mergeEnv) (out []byte, same bool, err er
 
 // normIncoming is what the incoming version means logically under the format version.
 func normIncoming(in Ver, e mergeEnv) Ver {
+	e = e.forVer(in)
 	n := Ver{TS: in.TS, Del: in.Del, Val: in.Val}
 	if e.FV < 2 {
 		n.Del = len(in.Val) == 0
@@ -144,6 +156,7 @@ func normIncoming(in Ver, e mergeEnv) Ver {
 // Version-1 snapshots have no deleted flag; their empty-value deletions are not subject to the
 // sweeper clause (DESIGN.md C04 LIM) and are merged like any other version.
 func isStale(v Ver, e mergeEnv) bool {
+	e = e.forVer(v)
 	n := normIncoming(v, e)
 	return e.FV >= 2 && n.Del && n.TS < e.Cutoff
 }
@@ -203,6 +216,11 @@ func checkStep(stored []byte, in Ver, e mergeEnv) ([]byte, error) {
 		}
 		if got.TS < old.TS {
 			return nil, fmt.Errorf("timestamp moved backwards: %v -> %v", old, got)
+		}
+		// a strictly newer incoming version replaces the stored one - also when it is a deletion marker
+		// older than the stale cutoff: that cutoff only concerns keys that are absent
+		if in.TS != 0 && ni.TS > old.TS && !got.sameLogical(ni) {
+			return nil, fmt.Errorf("incoming %v is newer than stored %v but did not replace it (cutoff %d): result %v", ni, old, e.Cutoff, got)
 		}
 	}
 	// a value LS wrote is well-formed (C14 clause, checked here for every written value)
@@ -374,17 +392,19 @@ func gridVersions() []Ver {
 func TestC02PairGrid(t *testing.T) {
 	vs := gridVersions()
 	vcore.RunEnum(t, vcore.Config{Property: "C02",
-		Rule: "exhaustive grid: stored in {absent} + 36 versions (6 timestamps incl. 0 x {5 values incl. empty and 0x00, deleted}) x 2 incoming versions from the same 36 x format version 1..3 x cutoff {0, 3, 100}: single-step clauses, idempotence, both orders; non-trivial = stored present and an incoming version differs from it, or two incoming versions tie"},
+		Rule: "exhaustive grid: stored in {absent} + 36 versions (6 timestamps incl. 0 x {5 values incl. empty and 0x00, deleted}) x 2 incoming versions from the same 36 x format versions of the two snapshots {(1,1),(2,2),(3,3),(1,3),(3,1)} x cutoff {0, 3, 100}: single-step clauses, idempotence, both orders; non-trivial = stored present and an incoming version differs from it, or two incoming versions tie"},
 		func(yield func(C02Case) bool) {
 			for si := -1; si < len(vs); si++ {
 				for ai := range vs {
 					for bi := ai; bi < len(vs); bi++ {
-						for fv := uint32(1); fv <= 3; fv++ {
-							if fv == 1 && (vs[ai].Del || vs[bi].Del) {
+						for _, fvp := range [][2]uint32{{1, 1}, {2, 2}, {3, 3}, {1, 3}, {3, 1}} {
+							if (fvp[0] == 1 && vs[ai].Del) || (fvp[1] == 1 && vs[bi].Del) {
 								continue // v1 has no flag; deletion is the empty value
 							}
 							for _, cut := range []uint64{0, 3, 100} {
-								c := C02Case{In: []Ver{vs[ai], vs[bi]}, Env: mergeEnv{FV: fv, Cutoff: cut}}
+								a, b := vs[ai], vs[bi]
+								a.FV, b.FV = fvp[0], fvp[1]
+								c := C02Case{In: []Ver{a, b}, Env: mergeEnv{FV: 3, Cutoff: cut}}
 								if si >= 0 {
 									s := vs[si]
 									c.Stored = &s
@@ -446,9 +466,13 @@ func genC02(t *rapid.T) C02Case {
 	n := rapid.IntRange(1, 3).Draw(t, "n_in")
 	for i := 0; i < n; i++ {
 		v := genVer(t, fmt.Sprintf("in%d", i), false)
-		if c.Env.FV == 1 {
+		if rapid.IntRange(0, 2).Draw(t, "ownfv") == 0 {
+			v.FV = uint32(rapid.IntRange(1, 3).Draw(t, "vfv"))
+		}
+		if c.Env.forVer(v).FV == 1 {
 			v.Del = len(v.Val) == 0
 			v.XFlags = 0
+			v.JunkVal = nil
 		}
 		c.In = append(c.In, v)
 	}
@@ -479,6 +503,7 @@ func genC02(t *rapid.T) C02Case {
 		for i := range c.In {
 			c.In[i].TS = 0 // captured versions carry no timestamp
 			c.In[i].XFlags = 0
+			c.In[i].FV = 0
 		}
 		c.Env.Cutoff = 0
 	}
